@@ -166,6 +166,23 @@ def _h_tiny(key, depth=1):
     return [(_fnv64(kb) >> (2 * (i % 16))) & 3 for i in range(depth)]
 
 
+class FalsyCallable:
+    """a perfectly good hashing strategy that happens to be a FALSY object (a callable with __bool__/__len__, e.g. a memoising
+    mapping that is still empty): the library must use the strategy it is given, whatever its truth value"""
+
+    def __init__(self, f):
+        self.f = f
+
+    def __call__(self, *a, **kw):
+        return self.f(*a, **kw)
+
+    def __bool__(self):
+        return False
+
+    def __len__(self):
+        return 0
+
+
 _CACHE = {}
 
 
@@ -207,6 +224,8 @@ def hash_by_name(name):
         f = _h_tiny
     elif name == "fixed8":
         f = _h_fixed8
+    elif name == "falsy_salted":
+        f = FalsyCallable(_h_salted)
     elif name == "fnv_first":
         f = _h_fnv_first
     elif name == "dec_fnv":  # hash_with_depth_int(fnv_1a): first value equals the default strategy's, the chain differs
@@ -221,7 +240,7 @@ def hash_by_name(name):
     return f
 
 
-GOOD_HASHES = ["default", "fnv", "md5", "sha256", "dec_int", "dec_bytes", "salted", "wide", "signed", "fnv_first", "dec_fnv"]
+GOOD_HASHES = ["default", "fnv", "md5", "sha256", "dec_int", "dec_bytes", "salted", "wide", "signed", "fnv_first", "dec_fnv", "falsy_salted"]
 DEGENERATE_HASHES = ["coincide", "bylen", "ident", "pairs", "tiny"]
 ALL_HASHES = GOOD_HASHES + DEGENERATE_HASHES
 
@@ -255,6 +274,8 @@ def simple_hash_by_name(name):
     elif name == "sha":
         def f(key, *a):
             return int.from_bytes(hashlib.sha256(_as_bytes(key)).digest()[:8], "big")
+    elif name == "falsy_sha":
+        f = FalsyCallable(simple_hash_by_name("sha"))
     else:
         raise ValueError(name)
     _CACHE[key] = f
